@@ -93,49 +93,51 @@ Definition line_op (p : program) (i : nat) : option op :=
   | None => None
   end.
 
-(* number of assignments to x among the first n lines *)
-Definition writes_before (x : var) (p : program) (n : nat) : nat :=
-  length (filter (assigns x) (firstn n p)).
+(* the assignments to x in a program, with the index of their line *)
+Definition entry (x : var) (idx : nat) (l : line) : list (nat * assign) :=
+  match l_body l with
+  | Some a => if str_eqb (a_var a) x then [(idx, a)] else []
+  | None => []
+  end.
 
-(* A verdict that flags an EARLIER line as redundant because of a later
-   default assignment: sound only if the flagged line is the first assignment. *)
-Definition backward_default_ok (p : program) (vd : verdict) : bool :=
-  if Nat.ltb (vd_flagged vd) (vd_because vd) then
-    match vd_kind vd, line_op p (vd_because vd) with
-    | KOverwritten, _ => true
-    | _, Some OpDefault => Nat.eqb (writes_before (line_var p (vd_flagged vd)) p (vd_flagged vd)) 0
-    | _, _ => true
-    end
-  else true.
+Fixpoint writes_of (x : var) (idx : nat) (ls : list line) : list (nat * assign) :=
+  match ls with
+  | [] => []
+  | l :: r => entry x idx l ++ writes_of x (S idx) r
+  end.
 
-(* A verdict that flags the CURRENT line as redundant because it assigns the
-   text pkglint remembers: the remembered text is not the value after '!='. *)
-Definition forward_same_ok (p : program) (vd : verdict) : bool :=
-  if Nat.ltb (vd_because vd) (vd_flagged vd) then
-    match line_op p (vd_flagged vd) with
-    | Some OpDefault => true
-    | _ => no_shell_on (line_var p (vd_flagged vd)) (firstn (vd_flagged vd) p)
-    end
-  else true.
-
-(* every assignment to x is plain *)
-Definition plain_on (x : var) (p : program) : bool :=
-  forallb (fun l => negb (assigns x l) || eager_plain_line l) p.
+(* the last assignment that replaced the whole value ('=' or ':=') was a ':='
+   whose text contains a '$': what pkglint remembers for the variable is then the
+   unexpanded text, not the value (finding C17/unsound/redundant-after-eval-assign,
+   which cannot be repaired without changing the expectations of the test suite) *)
+Definition after_eval_ref (ws : list (nat * assign)) : bool :=
+  fold_left (fun acc w => match a_op (snd w) with
+                          | OpEval => negb (no_dollar (render (a_val (snd w))))
+                          | OpAssign => false
+                          | _ => acc
+                          end) ws false.
 
 (* the lines strictly between line i and line j, i < j *)
 Definition between (p : program) (i j : nat) : program := firstn (j - S i) (skipn (S i) p).
 
-(* The guard of the partial theorem, for a verdict about variable x that was
-   emitted at line hi = max(flagged, because):
-   - no assignment to x up to and including line hi is ':=' or '!=' with a '$' in its text
-   - if an earlier line is flagged: no ':=' / '!=' with a '$' strictly between the two lines
-   - the two conditions above *)
+Definition line_plain (p : program) (i : nat) : bool :=
+  match nth_error p i with Some l => eager_plain_line l | None => true end.
+
+(* The guard of the partial theorem (code with the fixes 01-04 applied), for a
+   verdict about variable x:
+   - the LATER line is flagged because it assigns the remembered text again
+     ('=' or ':='): the last '=' / ':=' to x before it is not a ':=' with a '$';
+     (a later line flagged because it is a '?=': no condition)
+   - an EARLIER line is flagged: no ':=' / '!=' with a '$' in its text strictly
+     between the two lines, nor is the later line itself one. *)
 Definition guard (p : program) (vd : verdict) : bool :=
-  let lo := Nat.min (vd_flagged vd) (vd_because vd) in
-  let hi := Nat.max (vd_flagged vd) (vd_because vd) in
-  plain_on (line_var p (vd_flagged vd)) (firstn (S hi) p) &&
-  (if Nat.ltb (vd_flagged vd) (vd_because vd) then eager_plain (between p lo hi) else true) &&
-  backward_default_ok p vd && forward_same_ok p vd.
+  if Nat.ltb (vd_flagged vd) (vd_because vd) then
+    eager_plain (between p (vd_flagged vd) (vd_because vd)) && line_plain p (vd_because vd)
+  else
+    match line_op p (vd_flagged vd) with
+    | Some OpDefault => true
+    | _ => negb (after_eval_ref (writes_of (line_var p (vd_flagged vd)) 0 (firstn (vd_flagged vd) p)))
+    end.
 
 (* ----- the statement ----- *)
 
